@@ -251,6 +251,8 @@ def recorded_T(ctx, kind="array2", steps=2, stages=()):
     t0, dts = step_times(ctx, steps)
     m.pData.time[0] = t0
     m.setup()
+    # the table refresh during the steps is the subject of C13.lookup_*: keep its branching out of this harness
+    m._growthRate = lambda Y: ([np.zeros(m.PBM[0].bins + 1)], Y)
     ctx.observe("T0", m.pData.temperature[0])
     ctx.prove("setup records the schedule at the start time", ctx.eq(m.pData.temperature[0], ref(t0)))
     ctx.prove("setup builds the lookup table", len(log) >= 1)
@@ -546,7 +548,7 @@ _A_TABLE = ["temperatures > 0 (the backend sentinel -1 / None is C03's subject);
             "inductive steps start from any state with: every table entry and the last recorded xEq built at one temperature T_table, "
             "dTemp = T_last - T_table, |dTemp| <= maxTempChange (established by setup, shown in C13.lookup_history)",
             "one growth-rate evaluation per recorded step (explicit Euler iterator) except in C13.lookup_stages"]
-_S_TAG = ["BinaryThermodynamics replaced by a tagging stub: getInterfacialComposition(T, ...) returns T itself, so every table entry / xEq value carries the temperature it was computed at",
+_S_TAG = ["C13.recorded_T: model._growthRate stubbed after setup (the refresh logic is checked in C13.lookup_*)", "BinaryThermodynamics replaced by a tagging stub: getInterfacialComposition(T, ...) returns T itself, so every table entry / xEq value carries the temperature it was computed at",
           "model._calcMassBalance, model._calcNucleationRate (except C13.incubation), model._singleGrowthBinary (records the table it reads), model._getdXdt: stubs on the instance (subjects of C01/C14/C12/C07)",
           "print inside kawin.precipitation.PrecipitationParameters: no-op"]
 _cvs = [("const", "array2"), ("array2", "const"), ("func", "const"), ("array3", "func")]
@@ -565,7 +567,8 @@ HARNESSES = [
             bounds={"steps": "<= 2 (quick), <= 3 (thorough)", "intermediate stage evaluations per step": "0-3", "size classes": 3, "phases": 1},
             params={"quick": [dict(kind="array2", steps=2), dict(kind="const", steps=1), dict(kind="func", steps=2, stages=(0.5,))],
                     "thorough": [dict(kind="array3", steps=2), dict(kind="array2", steps=3), dict(kind="const", steps=3, stages=(0.5, 0.5, 1.0)),
-                                 dict(kind="func", steps=3, stages=(0.5, 0.5, 1.0)), dict(kind="array2", steps=2, stages=(0.5, 0.5, 1.0))]}),
+                                 dict(kind="func", steps=3, stages=(0.5, 0.5, 1.0)), dict(kind="array2", steps=2, stages=(0.5, 0.5, 1.0)),
+                                 dict(kind="array4", steps=2)]}),
     Harness("C13.lookup_refresh", lookup_refresh, functions=_FR, assumptions=_A_TABLE, stubs=_S_TAG, bounds={"size classes": "bins", "phases": 1},
             params={"quick": [dict(bins=3)], "thorough": [dict(bins=3), dict(bins=8)]}),
     Harness("C13.lookup_history", lookup_history, functions=_FR, assumptions=_A_TABLE + _A_SCHED[1:], stubs=_S_TAG, budget={"quick": 120.0, "thorough": 1200.0},
